@@ -1,0 +1,9 @@
+//go:build !verif
+// +build !verif
+
+package capnp
+
+import "sync"
+
+// verifYield is a no-op in normal builds (see verif_yield.go).
+func verifYield(*sync.Mutex) {}
